@@ -3,11 +3,11 @@
    runtime exploration of the check.  What the models can carry is termination: each modelled decoder is a fuelled function whose
    out-of-fuel result stands for "does not terminate"; these theorems show that result never occurs, on EVERY input, with fuel linear
    in the input size.  (Panics are not representable in Gallina: the models are total by construction, which is why the runtime half stays.)
-   Proofs: Proofs/DecoderTotal.v, ScannerFailure.v, SchemaResolveProofs.v. *)
+   Proofs: Proofs/DecoderTotal.v, ScannerFailure.v, SchemaResolveProofs.v, SchemaJsonProofs.v. *)
 From Coq Require Import ZArith List Bool.
 Import ListNotations.
 From Cedar Require Import Lang.Value Base.Json Impl.Scanner Impl.Tokenizer Impl.Quote Impl.Parser Impl.PolicyJson Impl.SchemaResolve
-  Proofs.ScannerFailure Proofs.DecoderTotal Proofs.SchemaResolveProofs.
+  Impl.SchemaJson Proofs.ScannerFailure Proofs.DecoderTotal Proofs.SchemaResolveProofs Proofs.SchemaJsonProofs.
 
 (* the streaming tokenizer: every reader (any chunking, failing or not), any bytes *)
 Theorem C10_tokenizer_terminates : forall b r fuel,
@@ -33,6 +33,11 @@ Proof. exact unquote_fuel_enough. Qed.
 Theorem C10_schema_resolution_terminates : forall s, resolve_schema s <> VFuel.
 Proof. exact resolve_schema_terminates. Qed.
 
+(* schema JSON: every JSON tree *)
+Theorem C10_schema_json_terminates : forall j, dec_schema j <> DFuel.
+Proof. exact dec_schema_total. Qed.
+
+Print Assumptions C10_schema_json_terminates.
 Print Assumptions C10_tokenizer_terminates.
 Print Assumptions C10_parser_terminates.
 Print Assumptions C10_text_pipeline_terminates.
